@@ -1,6 +1,7 @@
 //! vx_base — ASSUMED contracts on third-party and std code (trusted base, DESIGN §5).
 //! Everything in this crate is an assumption: `assume_specification`, `external_body`, `axiom`.
 //! Compiled and exported by Verus; imported by the spliced `mpd_protocol` and `mpd_client`.
+#![feature(allocator_api)]
 #![allow(unused_imports, dead_code, missing_docs, missing_debug_implementations)]
 use vstd::prelude::*;
 use bytes::{Buf, BufMut, BytesMut};
@@ -155,6 +156,24 @@ pub assume_specification [std::string::String::with_capacity] (n: usize) -> (r: 
 pub assume_specification [char::is_ascii_alphabetic] (c: &char) -> (r: bool)
     ensures r == (('a' <= *c && *c <= 'z') || ('A' <= *c && *c <= 'Z'));
 
+pub assume_specification<T: ?Sized, A: std::alloc::Allocator> [<std::sync::Arc<T, A> as AsRef<T>>::as_ref] (a: &std::sync::Arc<T, A>) -> (r: &T)
+    ensures r == &**a;
+pub assume_specification [<String as AsRef<str>>::as_ref] (s: &String) -> (r: &str)
+    ensures r@ == s@;
+/// a slice / Vec of elements of non-zero size has at most isize::MAX elements (allocation limit); used for `len() + 1`
+pub broadcast axiom fn slice_iter_len_bound<'a, T>(it: &std::slice::Iter<'a, T>)
+    ensures #[trigger] it.remaining().len() <= isize::MAX as nat;
+pub broadcast axiom fn vec_into_iter_len_bound<T>(it: &std::vec::IntoIter<T>)
+    ensures #[trigger] it.remaining().len() <= isize::MAX as nat;
+/// `AsRef<str>`: the text a key argument stands for (uninterpreted per type; instantiated for &str / String)
+pub uninterp spec fn as_ref_str<K: ?Sized>(k: &K) -> Seq<char>;
+pub broadcast axiom fn as_ref_str_str(k: &&str) ensures #[trigger] as_ref_str::<&str>(k) == (*k)@;
+pub broadcast axiom fn as_ref_str_string(k: &String) ensures #[trigger] as_ref_str::<String>(k) == k@;
+/// `Option::as_deref` through an uninterpreted Deref image (instantiated for BytesMut below)
+pub uninterp spec fn deref_image<'a, T: core::ops::Deref>(t: &'a T) -> &'a T::Target;
+pub broadcast axiom fn deref_image_bytesmut<'a>(b: &'a BytesMut) ensures #[trigger] deref_image::<BytesMut>(b)@ == bm_view(b);
+pub assume_specification<T: core::ops::Deref> [Option::<T>::as_deref] (o: &Option<T>) -> (r: Option<&T::Target>)
+    ensures match *o { Some(t) => r == Some(deref_image(&t)), None => r is None };
 pub open spec fn cow_view(c: Cow<'_, str>) -> Seq<char> { match c { Cow::Borrowed(s) => s@, Cow::Owned(s) => s@ } }
 pub uninterp spec fn cow_ref<'a, 'b, B: ?Sized + ToOwned>(c: &'b Cow<'a, B>) -> &'b B;
 pub broadcast axiom fn cow_ref_str<'a, 'b>(c: &'b Cow<'a, str>) ensures #[trigger] cow_ref::<str>(c)@ == cow_view(*c);
